@@ -85,39 +85,93 @@ Section Effects.
     forall i g st o a, In o (cr_ops _ _ (cr i g st)) -> In a (touches o) -> ~ In a dom.
   Definition clause_ops_avoid (dom : list Z) : Prop := forall e t, cr_ops_avoid dom (clause_result e t).
 
+  (* PER EXECUTION (the premises of the theorems): the same, about the clauses THIS transaction actually executes on THIS state —
+     dom may depend on the transaction, the block context and the state (the global forms above quantify one dom over every
+     transaction and are only sufficient conditions, satisfiable by oracles whose address set does not depend on the transaction) *)
+  Definition effs_ok (dom : list Z) (effs : list (state W * cres W O)) : Prop :=
+    forall p, In p effs -> cr_err _ _ (snd p) = false -> forall o, In o (cr_ops _ _ (snd p)) -> clause_kind o = true /\ covers dom o.
+  Definition effs_quiet (dom : list Z) (effs : list (state W * cres W O)) : Prop :=
+    forall p o, In p effs -> In o (cr_ops _ _ (snd p)) -> energy_quiet dom o.
+  Definition effs_avoid (dom : list Z) (effs : list (state W * cres W O)) : Prop :=
+    forall p o a, In p effs -> In o (cr_ops _ _ (snd p)) -> In a (touches o) -> ~ In a dom.
+  Definition effs_no_self (effs : list (state W * cres W O)) : Prop :=
+    forall p o, In p effs -> In o (cr_ops _ _ (snd p)) -> self_destruct_to_self o = false.
+  Definition tx_ops_ok (dom : list Z) e t ci st0 : Prop := effs_ok dom (tx_effects W O clause_result e t ci st0).
+  Definition tx_ops_quiet (dom : list Z) e t ci st0 : Prop := effs_quiet dom (tx_effects W O clause_result e t ci st0).
+  Definition tx_ops_avoid (dom : list Z) e t ci st0 : Prop := effs_avoid dom (tx_effects W O clause_result e t ci st0).
+  Definition tx_no_self e t ci st0 : Prop := effs_no_self (tx_effects W O clause_result e t ci st0).
+
+  Lemma effs_ok_mono dom dom' effs : incl dom dom' -> effs_ok dom effs -> effs_ok dom' effs.
+  Proof.
+    intros I H p Hp E o Ho. destruct (H p Hp E o Ho) as [K C]. split; [exact K|]. intros a Ha. apply I. exact (C a Ha).
+  Qed.
+
+  Lemma effects_in cr T S cs : forall i lft st p, In p (effects_of W O cr T S i cs lft st) -> exists j g s, snd p = cr j g s.
+  Proof.
+    induction cs as [|c rest IH]; intros i lft st p H; [contradiction|]. cbn [effects_of] in H. cbv zeta in H.
+    destruct H as [<-|H]; [eexists _, _, _; reflexivity|]. eapply IH; exact H.
+  Qed.
+
+  Lemma tx_effects_in e t ci st0 p : In p (tx_effects W O clause_result e t ci st0) -> exists j g s, snd p = clause_result e t j g s.
+  Proof.
+    unfold tx_effects. destruct (resolve t); [contradiction|]. destruct (buy_gas _ _ _ _); [contradiction|]. apply effects_in.
+  Qed.
+
+  (* the global forms imply the per-execution ones *)
+  Lemma clause_ops_ok_tx dom : clause_ops_ok dom -> forall e t ci st0, tx_ops_ok dom e t ci st0.
+  Proof.
+    intros G e t ci st0 p Hp E o Ho. destruct (tx_effects_in _ _ _ _ _ Hp) as [j [g [s Eq]]]. rewrite Eq in E, Ho. exact (G e t j g s E o Ho).
+  Qed.
+  Lemma clause_ops_avoid_tx dom : clause_ops_avoid dom -> forall e t ci st0, tx_ops_avoid dom e t ci st0.
+  Proof.
+    intros G e t ci st0 p o a Hp Ho Ha. destruct (tx_effects_in _ _ _ _ _ Hp) as [j [g [s Eq]]]. rewrite Eq in Ho. exact (G e t j g s o a Ho Ha).
+  Qed.
+  Lemma effs_avoid_quiet dom effs : effs_avoid dom effs -> effs_quiet dom effs.
+  Proof. intros H p o Hp Ho. right. intros a Ha. exact (H p o a Hp Ho Ha). Qed.
+
   Lemma burned_by_cons T S p effs :
     burned_by W O T S (p :: effs) =
     (fst (burned T S (fst (fst p)) (cr_ops _ _ (snd p))) + fst (burned_by W O T S effs),
      snd (burned T S (fst (fst p)) (cr_ops _ _ (snd p))) + snd (burned_by W O T S effs)).
   Proof. unfold burned_by. cbn [fold_right]. destruct (burned T S _ _). reflexivity. Qed.
 
-  Lemma effects_totals cr T S dom (OK : cr_ops_ok dom cr) (ND : NoDup dom) cs : forall i lft st,
+  Lemma effects_totals cr T S dom (ND : NoDup dom) cs : forall i lft st,
     let effs := effects_of W O cr T S i cs lft st in
-    any_error W O effs = false ->
+    effs_ok dom effs -> any_error W O effs = false ->
     sum_bal dom (l_acc (fst (state_after W O T S effs st))) = sum_bal dom (l_acc (fst st)) - fst (burned_by W O T S effs) /\
     sum_eng T S dom (l_acc (fst (state_after W O T S effs st))) = sum_eng T S dom (l_acc (fst st)) - snd (burned_by W O T S effs).
   Proof.
-    induction cs as [|c rest IH]; intros i lft st effs HE; subst effs; [cbn; split; lia|].
+    induction cs as [|c rest IH]; intros i lft st effs OK HE; subst effs; [cbn; split; lia|].
     cbn [effects_of] in *. cbv zeta in *. unfold any_error in HE. cbn [existsb snd] in HE. apply orb_false_iff in HE. destruct HE as [E1 E2].
     rewrite state_after_cons, burned_by_cons. cbn [fst snd].
-    destruct (IH _ _ _ E2) as [A B]. rewrite A, B. clear A B IH.
+    destruct (IH _ _ _ (fun p Hp => OK p (or_intror Hp)) E2) as [A B]. rewrite A, B. clear A B IH.
     unfold cres_state. cbn [fst].
-    pose proof (OK i lft st E1) as K.
+    pose proof (OK _ (or_introl eq_refl) E1) as K. cbn [snd] in K.
     destruct (ops_totals_exact T S (cr_ops _ _ (cr i lft st)) (fst st) dom ND (fun o Ho => proj2 (K o Ho))) as [C D].
     rewrite C, D. rewrite (clause_ops_no_delta T S _ (fst st) (fun o Ho => proj1 (K o Ho))). split; lia.
   Qed.
 
-  Lemma effects_avoid cr T S dom (AV : cr_ops_avoid dom cr) cs : forall i lft st,
+  Lemma effects_avoid cr T S dom cs : forall i lft st,
     let effs := effects_of W O cr T S i cs lft st in
-    sum_bal dom (l_acc (fst (state_after W O T S effs st))) = sum_bal dom (l_acc (fst st)) /\
+    effs_avoid dom effs ->
+    sum_bal dom (l_acc (fst (state_after W O T S effs st))) = sum_bal dom (l_acc (fst st)).
+  Proof.
+    induction cs as [|c rest IH]; intros i lft st effs AV; subst effs; [reflexivity|].
+    cbn [effects_of] in *. cbv zeta in *. rewrite state_after_cons. cbn [fst snd].
+    rewrite IH by (intros p o a Hp; apply AV; right; exact Hp).
+    unfold cres_state, sum_bal. cbn [fst].
+    apply sumf_ext; intros a Ha; apply untouched_ops; intros o Ho C; exact (AV _ o a (or_introl eq_refl) Ho C Ha).
+  Qed.
+
+  Lemma effects_quiet cr T S dom cs : forall i lft st,
+    let effs := effects_of W O cr T S i cs lft st in
+    effs_quiet dom effs ->
     sum_eng T S dom (l_acc (fst (state_after W O T S effs st))) = sum_eng T S dom (l_acc (fst st)).
   Proof.
-    induction cs as [|c rest IH]; intros i lft st effs; subst effs; [cbn; split; reflexivity|].
-    cbn [effects_of]. cbv zeta. rewrite state_after_cons. cbn [fst snd].
-    destruct (IH (Datatypes.S i) (cr_left _ _ (cr i lft st) + Z.min ((lft - cr_left _ _ (cr i lft st)) / 2) (cr_refund _ _ (cr i lft st)))
-                 (cres_state W O T S st (cr i lft st))) as [A B].
-    rewrite A, B. unfold cres_state, sum_bal, sum_eng. cbn [fst].
-    split; apply sumf_ext; intros a Ha; apply untouched_ops; intros o Ho C; exact (AV i lft st o a Ho C Ha).
+    induction cs as [|c rest IH]; intros i lft st effs Q; subst effs; [reflexivity|].
+    cbn [effects_of] in *. cbv zeta in *. rewrite state_after_cons. cbn [fst snd].
+    rewrite IH by (intros p o Hp; apply Q; right; exact Hp).
+    unfold cres_state. cbn [fst]. apply energy_quiet_ops. intros o Ho. exact (Q _ o (or_introl eq_refl) Ho).
   Qed.
 
   Lemma tx_burned_unfold e t ci st0 ig b :
@@ -130,13 +184,14 @@ Section Effects.
   (* EXACT totals of one transaction: no assumption on what the clauses conserve — they perform ledger primitives *)
   Theorem tx_totals_exact_lemma e t ci st0 st rc dom :
     let T := e_time e in let S := e_stop e in
-    clause_ops_ok dom -> NoDup dom -> In (r_payer O rc) dom -> In (e_benef e) dom ->
+    tx_ops_ok dom e t ci st0 -> NoDup dom -> In (r_payer O rc) dom -> In (e_benef e) dom ->
     exec_tx W O clause_result write_credit e t ci st0 = Done W O st rc ->
     sum_eng T S dom (l_acc (fst st)) =
       sum_eng T S dom (l_acc (fst st0)) + r_reward O rc - r_paid O rc - snd (tx_burned W O clause_result e t ci st0) /\
     sum_bal dom (l_acc (fst st)) = sum_bal dom (l_acc (fst st0)) - fst (tx_burned W O clause_result e t ci st0).
   Proof.
-    intros T S OKc ND. subst T S. unfold exec_tx. destruct (resolve t) as [|ig] eqn:ER; [discriminate|]. destruct (_ <? t_gas t); [discriminate|].
+    intros T S OKc ND. subst T S. unfold tx_ops_ok, tx_effects in OKc.
+    unfold exec_tx. destruct (resolve t) as [|ig] eqn:ER; [discriminate|]. destruct (_ <? t_gas t); [discriminate|].
     destruct (buy_gas e t ci (fst st0)) as [|b] eqn:EB; [discriminate|].
     rewrite (tx_burned_unfold e t ci st0 ig b ER EB). cbv zeta.
     apply buy_gas_spec in EB. destruct EB as [Hpre [Hled [Hok _]]].
@@ -155,22 +210,24 @@ Section Effects.
     { rewrite <- A. destruct rev.
       - destruct (C eq_refl) as [-> _]. cbn [fst snd]. split; lia.
       - destruct (B eq_refl) as [-> _].
-        pose proof (effects_totals (clause_result e t) (e_time e) (e_stop e) dom (OKc e t) ND (t_clauses t) 0%nat (t_gas t - ig) (b_led b, snd st0)) as K.
-        cbv zeta in K. rewrite <- A in K. exact (K eq_refl). }
+        pose proof (effects_totals (clause_result e t) (e_time e) (e_stop e) dom ND (t_clauses t) 0%nat (t_gas t - ig) (b_led b, snd st0)) as K.
+        cbv zeta in K. rewrite <- A in K. exact (K OKc eq_refl). }
     destruct E2 as [E2 E3]. rewrite E2, E3, Hled.
     rewrite energy_sub_eng, energy_sub_bal by assumption. rewrite Hok. rewrite Hpre. split; lia.
   Qed.
 
-  (* over ANY address set none of whose addresses a clause touches: with dom = [a] the per-account statement *)
+  (* over ANY address set for which the executed clauses are "energy quiet" (each primitive either is a VET transfer or touches no
+     address of the set): with dom = [a] the per-account statement — also when the payer sends or receives VET in the clauses *)
   Theorem energy_delta_any_set_lemma e t ci st0 st rc dom :
     let T := e_time e in let S := e_stop e in
-    clause_ops_avoid dom -> NoDup dom ->
+    tx_ops_quiet dom e t ci st0 -> NoDup dom ->
     exec_tx W O clause_result write_credit e t ci st0 = Done W O st rc ->
     sum_eng T S dom (l_acc (fst st)) = sum_eng T S dom (l_acc (fst st0))
         + (if member (e_benef e) dom then r_reward O rc else 0) - (if member (r_payer O rc) dom then r_paid O rc else 0) /\
-    sum_bal dom (l_acc (fst st)) = sum_bal dom (l_acc (fst st0)).
+    (tx_ops_avoid dom e t ci st0 -> sum_bal dom (l_acc (fst st)) = sum_bal dom (l_acc (fst st0))).
   Proof.
-    intros T S AV ND. subst T S. unfold exec_tx. destruct (resolve t); [discriminate|]. destruct (_ <? t_gas t); [discriminate|].
+    intros T S Q ND. subst T S. unfold tx_ops_quiet, tx_ops_avoid, tx_effects in *.
+    unfold exec_tx. destruct (resolve t) as [|ig]; [discriminate|]. destruct (_ <? t_gas t); [discriminate|].
     destruct (buy_gas e t ci (fst st0)) as [|b] eqn:EB; [discriminate|]. apply buy_gas_spec in EB.
     destruct EB as [Hpre [Hled [Hok _]]].
     destruct (t_ctx_err t); [discriminate|].
@@ -179,14 +236,19 @@ Section Effects.
     rewrite energy_add_eng_any, energy_add_bal_any by assumption.
     rewrite energy_add_eng_any, energy_add_bal_any by assumption.
     apply run_clauses_effects in ERC. cbv zeta in ERC. destruct ERC as [A [B C]].
-    assert (E2 : sum_bal dom (l_acc (fst st2)) = sum_bal dom (l_acc (b_led b)) /\
-                 sum_eng (e_time e) (e_stop e) dom (l_acc (fst st2)) = sum_eng (e_time e) (e_stop e) dom (l_acc (b_led b))).
+    assert (E3 : sum_eng (e_time e) (e_stop e) dom (l_acc (fst st2)) = sum_eng (e_time e) (e_stop e) dom (l_acc (b_led b))).
     { destruct rev.
-      - destruct (C eq_refl) as [-> _]. split; reflexivity.
-      - destruct (B eq_refl) as [-> _]. apply (effects_avoid (clause_result e t) (e_time e) (e_stop e) dom (AV e t)). }
-    destruct E2 as [E2 E3]. rewrite E2, E3, Hled.
-    rewrite energy_sub_eng_any, energy_sub_bal_any by assumption. rewrite Hok. cbn [andb]. split; [|reflexivity].
-    rewrite Hpre. destruct (member (b_payer b) dom), (member (e_benef e) dom); lia.
+      - destruct (C eq_refl) as [-> _]. reflexivity.
+      - destruct (B eq_refl) as [-> _]. apply (effects_quiet (clause_result e t) (e_time e) (e_stop e) dom). exact Q. }
+    split.
+    - rewrite E3, Hled. rewrite energy_sub_eng_any by assumption. rewrite Hok. cbn [andb].
+      rewrite Hpre. destruct (member (b_payer b) dom), (member (e_benef e) dom); lia.
+    - intros AV.
+      assert (E2 : sum_bal dom (l_acc (fst st2)) = sum_bal dom (l_acc (b_led b))).
+      { destruct rev.
+        - destruct (C eq_refl) as [-> _]. reflexivity.
+        - destruct (B eq_refl) as [-> _]. apply (effects_avoid (clause_result e t) (e_time e) (e_stop e) dom). exact AV. }
+      rewrite E2, Hled. apply energy_sub_bal_any. assumption.
   Qed.
 
   (* who pays and at what price *)
